@@ -1009,8 +1009,19 @@ func (s *Server) handleDecline(req *dhcpv4.DHCPv4) {
 	}
 	s.leasesMu.Unlock()
 
+	// Remove from circuit-ID secondary index
+	if exists && lease != nil && len(lease.CircuitID) > 0 {
+		cidKey := hex.EncodeToString(lease.CircuitID)
+		s.leasesByCircuitIDMu.Lock()
+		delete(s.leasesByCircuitID, cidKey)
+		s.leasesByCircuitIDMu.Unlock()
+	}
+
 	if exists && lease != nil {
 		if pool := s.poolMgr.GetPool(lease.PoolID); pool != nil {
+			// Drop the client's pool binding first, otherwise the next
+			// DISCOVER from this client is offered the declined address again
+			pool.Release(declinedIP)
 			pool.MarkUnavailable(declinedIP)
 		}
 	}
